@@ -18,6 +18,16 @@ pub(crate) fn read_type(src: &mut &[u8]) -> io::Result<Option<Type>> {
     let mut len = usize::from(encoding >> 4);
 
     if len == MAX_TYPE_LEN {
+        // § 6.3.3 "Type encoding" (2024-10-09): the overflowing length is a single typed integer.
+        // The length of the length itself therefore cannot overflow. This also bounds the
+        // recursion through `read_value`.
+        if src.first().is_some_and(|b| b >> 4 == 0x0f) {
+            return Err(io::Error::new(
+                io::ErrorKind::InvalidData,
+                "invalid length value",
+            ));
+        }
+
         let value = read_value(src)?;
 
         len = match value.and_then(|v| v.as_int()) {
